@@ -10,7 +10,10 @@ package c03
 //     identifiers or parenthesised (a mutation can never re-associate an expression);
 //   - `none`, `[]` and null-typed expressions only occur where an annotation fixes the type;
 //   - no statement follows a return/break/continue in its block; loops always contain a break
-//     (the typing of non-terminating loops is not relied upon);
+//     (the typing of non-terminating loops is not relied upon here; flow.go does that);
+//   - a value-producing if/else, match or try/catch may have one diverging branch (throw or
+//     return): the expression then has the type of the branches that yield a value, which the
+//     type expectation of the enclosing let and the typed positions around it observe;
 //   - let names (tN), variables, functions and catch identifiers are unique per program.
 
 import (
@@ -292,6 +295,15 @@ func (g *gen) expr(t *mutate.Ty, d int) string {
 	switch g.r.Intn(14) {
 	case 0:
 		c := mk("cond", "", g.expr(tBool, d-1))
+		if g.r.Chance(1, 4) {
+			// one branch diverges: the expression has the type of the other one. The value branch is an
+			// unsure site (a wrong value there only changes the type of an inferred let).
+			val := "{ " + mk("br?", t.String(), g.expr(t, d-1)) + " }"
+			if g.r.Bool() {
+				return "if " + c + " " + val + " " + mk("els", "", "else "+g.diverge())
+			}
+			return "if " + c + " " + g.diverge() + " " + mk("els?", "", "else "+val)
+		}
 		return "if " + c + " { " + mk("br", t.String(), g.expr(t, d-1)) + " } " + mk("els", "", "else { "+mk("br", t.String(), g.expr(t, d-1))+" }")
 	case 1:
 		return g.matchExpr(t, d)
@@ -310,6 +322,10 @@ func (g *gen) expr(t *mutate.Ty, d int) string {
 		return s
 	case 4:
 		en := g.fresh("e")
+		if g.r.Chance(1, 4) {
+			// the catch block diverges: the expression has the type of the try block
+			return "try { " + mk("br?", t.String(), g.expr(t, d-1)) + " } catch " + en + " " + g.diverge()
+		}
 		s := "try { " + mk("br", t.String(), g.expr(t, d-1)) + " } catch " + en + " { "
 		g.push()
 		g.declare(gvar{en, mutate.ObjOf(mutate.Field{Name: "message", T: tStr}, mutate.Field{Name: "line", T: tInt}, mutate.Field{Name: "column", T: tInt}, mutate.Field{Name: "filename", T: tStr})})
@@ -464,11 +480,54 @@ func (g *gen) matchExpr(t *mutate.Ty, d int) string {
 	}
 	n := 1 + g.r.Intn(len(pats))
 	s := "match " + g.expr(ct, d-1) + " { "
-	for i := 0; i < n; i++ {
-		s += pats[i] + " => " + mk("br", t.String(), g.expr(t, d-1)) + ", "
+	// sometimes one arm (or the default arm) diverges: the others then are unsure sites
+	div := -1
+	br := "br"
+	if g.r.Chance(1, 4) {
+		div = g.r.Intn(n + 1)
+		br = "br?"
 	}
-	s += mk("dflt", "", "_ => "+mk("br", t.String(), g.expr(t, d-1))+",") + " }"
+	for i := 0; i < n; i++ {
+		if i == div {
+			s += pats[i] + " => " + g.diverge() + ", "
+			continue
+		}
+		s += pats[i] + " => " + mk(br, t.String(), g.expr(t, d-1)) + ", "
+	}
+	if div == n {
+		s += mk("dflt", "", "_ => "+g.diverge()+",") + " }"
+	} else {
+		// without the default arm a match whose only other arm diverges is null-typed, not ill-typed
+		dflt := "dflt"
+		if div == 0 && n == 1 {
+			dflt = "dflt?"
+		}
+		s += mk(dflt, "", "_ => "+mk(br, t.String(), g.expr(t, d-1))+",") + " }"
+	}
 	return s
+}
+
+// diverge emits a block that does not complete: a throw (as statement or as value) or a return of
+// the enclosing function or closure. break/continue are left to the flow family (flow.go): an
+// expression may stand in a loop header, where they would belong to the enclosing loop.
+func (g *gen) diverge() string {
+	k := g.r.Intn(4)
+	if g.afterCl && !g.feat.returnAfterCl && k >= 2 {
+		k -= 2
+	}
+	switch k {
+	case 0:
+		return `{ throw("gen") }`
+	case 1:
+		return `{ throw("gen"); }`
+	}
+	if g.afterCl {
+		g.tags[TagClosureCtx] = true
+	}
+	if g.ret.K == mutate.KNull {
+		return "{ return; }"
+	}
+	return "{ return " + g.retValue(g.argExpr(g.ret, 1)) + "; }"
 }
 
 // closure emits a function literal of type t (its parameters get the names of t).
